@@ -41,7 +41,7 @@ def run(ctx):
     K.lean_verdict(ctx)
     corrs = []
     if K.build_hx(ctx) and K.build_drv(ctx):
-        args = ["%s=%s" % (k, facts.get(k, "unknown")) for k in DRV_FACTS]
+        args = S.drv_args(facts)
         try:
             c = K.correspondence(ctx, "C01", args, timeout=900)
         except Exception as e:  # e.g. the real reader hangs on what a mutated writer produced
